@@ -430,13 +430,8 @@ func checkTriangulateMesh(r *ev.Run, loops [][]pt, place string) {
 	if place != "" {
 		return
 	}
-	// extrusion: closed oriented manifold with volume = area x height
-	var pm3 *model3d.Mesh
-	if pm := ev.Try(func() { pm3 = model3d.ProfileMesh(m, -0.5, 1.5) }); pm != "" {
-		r.Violation("ProfileMesh/panic", "panic: "+pm, c)
-		return
-	}
-	rep := topo.Analyze3(lat.Tris(pm3))
+	// extrusion: closed oriented manifold with volume = area x height, for a dyadic pair of heights and for pairs
+	// at which minZ + (maxZ - minZ) != maxZ in floating point (a cap placed "by offset" then misses the walls)
 	var want int64
 	for i, l := range loops {
 		depth := 0
@@ -455,12 +450,40 @@ func checkTriangulateMesh(r *ev.Run, loops [][]pt, place string) {
 			want -= a
 		}
 	}
-	if !rep.Manifold() {
-		r.Violation("ProfileMesh/nonmanifold", rep.String(), c)
-	} else if !(math.Abs(rep.Volume-float64(want)) <= 1e-9*float64(want)) { // area2/2 * height 2
-		r.Violation("ProfileMesh/volume", fmt.Sprintf("volume %g, want area x height = %g", rep.Volume, float64(want)), c)
+	for _, hz := range profileHeights {
+		var pm3 *model3d.Mesh
+		c := c
+		c.Place = fmt.Sprintf("heights %g..%g", hz[0], hz[1])
+		if pm := ev.Try(func() { pm3 = model3d.ProfileMesh(m, hz[0], hz[1]) }); pm != "" {
+			r.Violation("ProfileMesh/panic", "panic: "+pm, c)
+			return
+		}
+		rep := topo.Analyze3(lat.Tris(pm3))
+		wantVol := float64(want) / 2 * (hz[1] - hz[0])
+		if !rep.Manifold() {
+			r.Violation("ProfileMesh/nonmanifold", fmt.Sprintf("heights %g..%g: %s", hz[0], hz[1], rep.String()), c)
+			return
+		} else if !(math.Abs(rep.Volume-wantVol) <= 1e-9*wantVol) {
+			r.Violation("ProfileMesh/volume", fmt.Sprintf("heights %g..%g: volume %g, want area x height = %g", hz[0], hz[1], rep.Volume, wantVol), c)
+			return
+		}
 	}
 }
+
+// profileHeights: one exactly representable pair and the first pairs of a decimal grid at which adding the
+// height back onto minZ does not give maxZ (or subtracting it from maxZ does not give minZ).
+var profileHeights = func() [][2]float64 {
+	out := [][2]float64{{-0.5, 1.5}}
+	for a := -7; a <= 7 && len(out) < 3; a++ {
+		for b := a + 1; b <= 9 && len(out) < 3; b++ {
+			lo, hi := float64(a)/10, float64(b)/10
+			if lo+(hi-lo) != hi || hi-(hi-lo) != lo {
+				out = append(out, [2]float64{lo, hi})
+			}
+		}
+	}
+	return out
+}()
 
 func checkFace(r *ev.Run, p []pt, plane int) {
 	// embed the polygon in a plane spanned by two (non-orthogonal for plane 3,4) integer vectors
